@@ -45,9 +45,9 @@ TRUSTED = [
 ]
 ASSUMPTIONS = ["split values are (nested) Python lists of atoms; container dimension >= 1 (the property's quantifier); "
                "a field without a container_ndim entry has container dimension 1"]
-RULE = ("nested lists of uniform depth 1-3 with inner lengths 0-3 (all of depth <= 2 enumerated, depth 3 sampled: "
-        "rectangular, one-list-perturbed and fully random ragged), a few mixed-depth values, x every container "
-        "dimension 1..depth, alone and as the left/right operand of an outer and of an inner splitter whose other "
+RULE = ("nested lists of uniform depth 1-3 with inner lengths 0-3 (all of depth <= 2 and all of depth 3 with lengths "
+        "0-2 enumerated, depth 3 with lengths up to 3 sampled: rectangular, one-list-perturbed and fully random ragged), "
+        "a few mixed-depth values, x every container dimension 1..depth (and depth+1, and the default), alone and as the left/right operand of an outer and of an inner splitter whose other "
         "operand is a plain list or a second nested field; non-trivial = distinct case with container dimension >= 2 "
         "and >= 2 elements at that depth")
 
@@ -438,7 +438,11 @@ def build_cases(ctx):
     for v in all_uniform(2):
         for _ in range(n_pairs2):
             cases.append(make_pair(rng, v, rng.choice([1, 2, 2]), "enum2", nested_left=rng.random() < 0.7))
-    # depth 3: sampled
+    # depth 3: every value with inner lengths 0-2, alone, every container dimension
+    for v in all_uniform(3, maxlen=2):
+        for n in (1, 2, 3):
+            cases.append(make_single(v, n, "enum3-len2"))
+    # depth 3 with lengths up to 3: sampled
     for _ in range(ctx.budget(500, 8000)):
         v, kind = gen_depth3(rng) if rng.random() < 0.93 else gen_mixed(rng)
         n = rng.choice([1, 2, 3, 3])
@@ -573,23 +577,15 @@ def run(ctx):
     spec_bad = [i for i in res["spec"] if in_quantifier(keep[i][0])]
     # expand the smallest spec failures (known class and others separately) and the first tie failures
     def size(i):
-        return len(case_key(keep[i][0]))
+        return (keep[i][0]["shape_kind"] == "mixed", len(case_key(keep[i][0])))
     known_cls = sorted([i for i in spec_bad if not_rect(keep[i][0])], key=size)
     other_cls = sorted([i for i in spec_bad if not not_rect(keep[i][0])], key=size)
     chosen = known_cls[:6] + other_cls[:12]
     items = [keep[i] + ("spec",) for i in chosen] + [keep[i] + ("tie",) for i in res["tie"][:8]]
     out.failures += _failures(ctx.scratch, "fail", items)
-    for i in spec_bad:
-        if i not in chosen:
-            c, level, obs, ind = keep[i]
-            cj = _case_json(c)
-            cj["level"] = level
-            out.failures.append(Failure(case=cj, observed={"outcome": list(obs), "states_ind": ind},
-                                        note="(further spec failure, not expanded)",
-                                        finding="F04" if not_rect(c) else None, kind="spec"))
     out.extra = {"phase_wall_s": {"state_level": round(t1 - t0, 1), "end_to_end": round(t2 - t1, 1),
                                   "coq_cases": round(time.time() - t2, 1)},
-                 "spec_disagreements": len(spec_bad),
+                 "spec_disagreements": len(spec_bad), "spec_disagreements_expanded": len(chosen),
                  "tie_disagreements": len(res["tie"]),
                  "enumerated_depth_le_2_values": len(all_uniform(1)) + len(all_uniform(2))}
     return out
